@@ -1541,7 +1541,9 @@ func main() {
 	runQRBitstream()
 	runQRLongSegments()
 	runDMBitstream()
+	runDMLongStreams()
 	runAztecHighLevel()
+	runAztecLongStreams()
 	runMatrices()
 	runRows()
 	runImages()
